@@ -64,6 +64,13 @@ class Transaction(transaction.Transaction):
             value = EscapedString.from_value('')
         self.raw_string2 = value
 
+    def auto_claim_comments(self) -> None:
+        if not self._postings.items:
+            # Without postings, the (empty) postings field would claim the comment directly below the last
+            # meta item as a standalone comment before that meta item gets to claim it as its trailing comment.
+            type(self)._meta.auto_claim_comments(self._meta)
+        super().auto_claim_comments()
+
     payee = internal.optional_string_property(raw_payee, EscapedString)
     narration = internal.optional_string_property(raw_narration, EscapedString)
     tags = internal.repeated_string_property(transaction.Transaction.raw_tags_links, Tag)
